@@ -185,8 +185,21 @@ func FirstPositionRecursion(p *load.Prog, r *oblig.Report, rule string) {
 		usersetParam = fn.Params[1].Name()
 	}
 	got := map[string]bool{}
-	var collect func(f *ssa.Function, depth int)
-	collect = func(f *ssa.Function, depth int) {
+	// the recursive calls, in the function itself and in helpers of its package it delegates to (their
+	// parameters rendered as the arguments they receive)
+	subst := func(path string, env map[string]string) string {
+		for name, arg := range env {
+			if path == name {
+				return arg
+			}
+			if strings.HasPrefix(path, name+".") || strings.HasPrefix(path, name+"[") {
+				return arg + path[len(name):]
+			}
+		}
+		return path
+	}
+	var collect func(f *ssa.Function, env map[string]string, depth int)
+	collect = func(f *ssa.Function, env map[string]string, depth int) {
 		for _, b := range f.Blocks {
 			for _, in := range b.Instrs {
 				call, ok := in.(ssa.CallInstruction)
@@ -194,13 +207,26 @@ func FirstPositionRecursion(p *load.Prog, r *oblig.Report, rule string) {
 					continue
 				}
 				callee := call.Common().StaticCallee()
+				if callee == nil {
+					continue
+				}
 				if callee == fn && len(call.Common().Args) >= 2 {
-					got[pathWithIndex(call.Common().Args[1])] = true
+					got[subst(pathWithIndex(call.Common().Args[1]), env)] = true
+					continue
+				}
+				if callee.Pkg == fn.Pkg && len(callee.Blocks) > 0 && depth < 2 && callee != f {
+					sub := map[string]string{}
+					for i, prm := range callee.Params {
+						if i < len(call.Common().Args) {
+							sub[prm.Name()] = subst(pathWithIndex(call.Common().Args[i]), env)
+						}
+					}
+					collect(callee, sub, depth+1)
 				}
 			}
 		}
 	}
-	collect(fn, 0)
+	collect(fn, nil, 0)
 	want := map[string]bool{
 		usersetParam + ".Difference.Base":       true,
 		usersetParam + ".Intersection.Child[0]": true,
@@ -782,6 +808,27 @@ func rewriteOrigin(v ssa.Value, target *ssa.FieldAddr) (string, string) {
 			if strings.HasSuffix(fp, ".Rewrites") && strings.Contains(fp, "rewriteStack") {
 				return "append-to-popped", ""
 			}
+			// the popped element handed out by a pop helper: l.pop().Rewrites with pop returning an element of the stack
+			if ld, ok := first.(*ssa.UnOp); ok && ld.Op == token.MUL {
+				if fa, ok := ld.X.(*ssa.FieldAddr); ok && fieldNameOf(fa.X.Type(), fa.Field) == "Rewrites" {
+					if hc, ok := fa.X.(*ssa.Call); ok {
+						if h := hc.Common().StaticCallee(); h != nil && len(h.Blocks) > 0 {
+							okAll, rets := true, 0
+							for _, hb := range h.Blocks {
+								if ret, ok := hb.Instrs[len(hb.Instrs)-1].(*ssa.Return); ok && len(ret.Results) == 1 {
+									rets++
+									if !strings.Contains(AccessPath(ret.Results[0]), "rewriteStack[") {
+										okAll = false
+									}
+								}
+							}
+							if okAll && rets > 0 {
+								return "append-to-popped", ""
+							}
+						}
+					}
+				}
+			}
 			if k, why := rewriteOrigin(first, target); k == "fresh" {
 				return "fresh", why
 			}
@@ -807,22 +854,27 @@ func rewriteOrigin(v ssa.Value, target *ssa.FieldAddr) (string, string) {
 // when it closes; nothing else writes it.
 func StackDiscipline(p *load.Prog, r *oblig.Report, rule string, funcs []*ssa.Function) {
 	got := map[string][]string{}
+	isCallback := func(f *ssa.Function) bool {
+		return strings.HasPrefix(f.Name(), "Enter") || strings.HasPrefix(f.Name(), "Exit")
+	}
 	for _, f := range funcs {
-		if f.Signature.Recv() == nil || !strings.Contains(f.Signature.Recv().Type().String(), "OpenFgaDslListener") {
-			continue
+		if f.Signature.Recv() == nil || !strings.Contains(f.Signature.Recv().Type().String(), "OpenFgaDslListener") || !isCallback(f) {
+			continue // helpers are accounted for in the callbacks that call them
 		}
-		for _, b := range f.Blocks {
-			for _, in := range b.Instrs {
-				st, ok := in.(*ssa.Store)
-				if !ok || AccessPath(st.Addr) != "l.rewriteStack" {
+		// what running the callback does to the stack: its own stores and those of the helper methods it calls
+		for _, si := range StoresWithHelpers(f) {
+			{
+				st := si.St
+				if si.Path(st.Addr) != "l.rewriteStack" {
 					continue
 				}
+				samePath := func(v ssa.Value) bool { return si.Path(v) == "l.rewriteStack" }
 				kind := "other:" + AccessPath(st.Val)
 				switch v := st.Val.(type) {
 				case *ssa.Slice:
 					if _, isAlloc := v.X.(*ssa.Alloc); isAlloc {
 						kind = "fresh"
-					} else if AccessPath(v.X) == "l.rewriteStack" && v.Low == nil && v.High != nil {
+					} else if samePath(v.X) && v.Low == nil && v.High != nil {
 						if bo, ok := v.High.(*ssa.BinOp); ok && bo.Op == token.SUB {
 							if c, ok := bo.Y.(*ssa.Const); ok && c.Int64() == 1 {
 								kind = "pop"
@@ -830,7 +882,7 @@ func StackDiscipline(p *load.Prog, r *oblig.Report, rule string, funcs []*ssa.Fu
 						}
 					}
 				case *ssa.Call:
-					if ac, ok := appendCall(v); ok && AccessPath(ac.Common().Args[0]) == "l.rewriteStack" {
+					if ac, ok := appendCall(v); ok && samePath(ac.Common().Args[0]) {
 						kind = "push"
 					}
 				case *ssa.Const:
